@@ -510,7 +510,202 @@ def run_c19(ck, ctx):
     ck.sample(dict(views=['rdh', 'its-readout-frames', 'its-readout-frames-data'], styled=[False, True]))
 
 
+# =============================================================== C04
+def mutate_stream(R, base):
+    """structure-aware mutation of a conforming stream; returns bytes"""
+    pk = [p.clone() for p in base]
+    for _ in range(R.randint(1, 6)):
+        kind = R.choice(['rdh_field', 'rdh_extreme', 'word_bits', 'word_random', 'word_insert', 'word_delete', 'word_dup', 'word_swap', 'splice',
+                         'size', 'offset', 'layer7', 'raw_bits', 'ids', 'fatal_ape', 'lane_garbage'])
+        i = R.randrange(len(pk)); p = pk[i]
+        if kind == 'rdh_field':
+            f = R.choice(list(G.RDH_DEFAULT.keys()))
+            if p.rdh.get(f) is not None: p.rdh[f] = p.rdh[f] ^ (1 << R.randrange(16))
+        elif kind == 'rdh_extreme':
+            f = R.choice(['fee', 'link', 'bc', 'orbit', 'df', 'trig', 'page', 'stop', 'det', 'sysid', 'ver', 'hsize', 'dw'])
+            p.rdh[f] = R.choice([0, 1, 0xFF, 0xFFFF, 0xFFFFFFFF, 0x7FFF])
+        elif kind == 'layer7': p.rdh['fee'] = (p.rdh['fee'] & 0x0FFF) | 0x7000
+        elif kind == 'size': p.rdh['size'] = R.choice([0, 63, 64, 65, (p.size() + R.randint(-20, 20)) & 0xFFFF, 0xFFFF])
+        elif kind == 'offset': p.rdh['off'] = R.choice([0, 63, 64, 10064, 10065, (p.size() + R.randint(-20, 20)) & 0xFFFF, 0xFFFF])
+        elif p.words:
+            k = R.randrange(len(p.words))
+            if kind == 'word_bits': w = bytearray(p.words[k]); w[R.randrange(10)] ^= 1 << R.randrange(8); p.words[k] = bytes(w)
+            elif kind == 'word_random': p.words[k] = bytes(R.getrandbits(8) for _ in range(10))
+            elif kind == 'word_insert': p.words.insert(k, R.choice([G.ihw(R.getrandbits(28)), G.tdh(cont=R.randint(0, 1), nodata=R.randint(0, 1)), G.tdt(R.randint(0, 1)), G.ddw0(), G.cdw(1, 2), bytes(R.getrandbits(8) for _ in range(10))]))
+            elif kind == 'word_delete': del p.words[k]
+            elif kind == 'word_dup': p.words.insert(k, p.words[k])
+            elif kind == 'word_swap' and len(p.words) > 1: j = R.randrange(len(p.words)); p.words[k], p.words[j] = p.words[j], p.words[k]
+            elif kind == 'ids': w = bytearray(p.words[k]); w[9] = R.choice([0x29, 0x3F, 0x47, 0x5F, 0x00, 0xFF, 0xE0, 0xE8, 0xF0, 0xE4, 0xF8, 0x2A]); p.words[k] = bytes(w)
+            elif kind == 'fatal_ape': w = bytearray(p.words[k]); w[0] = R.choice([0xF4, 0xF5, 0xFC]); p.words[k] = bytes(w)
+            elif kind == 'lane_garbage': w = bytearray(p.words[k]); w[:9] = bytes(R.choice([0, 0xFF, 0xA0, 0xE0, 0xB0, 0xC0, R.getrandbits(8)]) for _ in range(9)); p.words[k] = bytes(w)
+        if kind == 'splice' and len(pk) > 2:
+            j = R.randrange(len(pk)); pk[i], pk[j] = pk[j], pk[i]
+    data = bytearray(G.encode(pk))
+    if R.random() < 0.3:
+        for _ in range(R.randint(1, 8)): data[R.randrange(len(data))] ^= 1 << R.randrange(8)
+    if R.random() < 0.2: data = data[:R.randrange(len(data) + 1)]
+    return bytes(data)
+
+
+def run_c04(ck, ctx):
+    R, tier = ctx['R'], ctx['tier']
+    wd = os.path.join(L.CACHE, 'tmp', f'c04_{os.getpid()}')
+    os.makedirs(wd, exist_ok=True)
+    toml = os.path.join(wd, 'c.toml'); open(toml, 'w').write('cdps = 10\ntriggers_pht = 0\nchip_count_ob = 7\nchip_orders_ob = [[0,1,2,3,4,5,6],[8,9,10,11,12,13,14]]\nrdh_version = 7\n')
+    n = 120 if tier == 'quick' else 4000
+    cmds = [['check', 'sanity'], ['check', 'sanity', 'its'], ['check', 'all'], ['check', 'all', 'its'], ['check', 'all', 'its-stave'],
+            ['view', 'rdh'], ['view', 'its-readout-frames'], ['view', 'its-readout-frames-data'], ['-f', '0', '-o', os.devnull]]
+    opts = [[], ['-m'], ['-e', '3'], ['-E', '9'], ['-c', toml], ['-f', '1'], ['-F', '12300'], ['-w', '10', '40']]
+    base_streams = [G.conforming_stream(R, nlinks=R.randint(1, 3), max_hbf=2)[0] for _ in range(6)]
+    jobs = []
+    for i in range(n):
+        r = i % 10
+        if r == 0: data = bytes(R.getrandbits(8) for _ in range(R.choice([0, 1, 7, 8, 9, 63, 64, 65, 200, 5000])))
+        elif r == 1:
+            data = bytearray(R.getrandbits(8) for _ in range(R.randint(64, 3000)))
+            data[0:8] = bytes([7, 0x40, R.randrange(48), R.randrange(7) << 4, 0, 32, 0, 0]); data[8:12] = struct_pack_off(R)
+            data = bytes(data)
+        else: data = mutate_stream(R, R.choice(base_streams))
+        cmd = R.choice(cmds)
+        opt = R.choice(opts) if cmd[0] == 'check' else R.choice([[], ['-f', '1'], ['-d']]) if cmd[0] == 'view' else []
+        if cmd == ['check', 'all', 'its-stave'] and R.random() < 0.3: opt = ['-s', 'L%d_%d' % (R.randint(0, 6), R.randint(0, 11)), '-p', str(R.randint(1, 3563))]
+        jobs.append((i, cmd, opt, R.choice(['file', 'pipe']), data))
+
+    def job(j):
+        i, cmd, opt, via, data = j
+        args = [a for a in cmd + opt]
+        if '-f' in cmd and '-f' in opt: args = cmd
+        return L.run_cli(args, data, via=via, stats=False, timeout=20 + len(data) // 2000)
+    res = L.pmap(job, jobs)
+    reqs, rj = [], []
+    for j, r in zip(jobs, res):
+        i, cmd, opt, via, data = j
+        ck.case((i,)); ck.count('cmd_' + '_'.join(cmd[:3]).replace(os.devnull, 'null')); ck.count('via_' + via)
+        err = L.ANSI.sub('', r.stderr)
+        ok = (not r.timeout) and r.exit in (0, 1, 9) and 'panicked' not in err
+        ck.count('exit_%s' % r.exit)
+        if not ok:
+            key = 'layer7-panic' if 'Invalid layer number' in err else None
+            ck.violation('crash', {'what': 'abnormal termination (panic / abort / signal / timeout) or exit status outside {0, 1, N}', 'args': cmd + opt, 'via': via,
+                                   'exit': r.exit, 'timeout': r.timeout, 'wall_s': round(r.wall, 2), 'stderr': err[-600:], 'input_hex': data.hex()}, key=key)
+        if cmd[0] == 'check' and via == 'file' and not opt and len(data) < 60000:
+            tgt = {2: 'none', 3: 'its' if cmd[-1] == 'its' else 'stave'}[len(cmd)]
+            reqs.append(f'run cmd={cmd[1]} target={tgt} data={G.hexs(data)}'); rj.append((j, r))
+    model = L.run_driver(reqs)
+    dis = []
+    for q, m, (j, r) in zip(reqs, model, rj):
+        mp = m.startswith('PANIC')
+        ip = 'panicked' in r.stderr
+        if mp != ip: dis.append((0, q[:200], f'exit={r.exit} {L.ANSI.sub("", r.stderr)[-200:]}', m[:100]))
+    ck.corr['panic_model'] = dict(cases=len(reqs), disagreements=len(dis))
+    report_dis(ck, 'panic_model', dis)
+    shutil.rmtree(wd, ignore_errors=True)
+    ck.sample(dict(args=jobs[5][1] + jobs[5][2], via=jobs[5][3], input_len=len(jobs[5][4])))
+
+
+def struct_pack_off(R):
+    import struct
+    o = R.choice([64, 80, 160, 10064, 63, 0, 10065, 0xFFFF])
+    return struct.pack('<HH', o, R.choice([o, 64, 0, 0xFFFF]))
+
+
+# =============================================================== C17
+def run_c17(ck, ctx):
+    R, tier = ctx['R'], ctx['tier']
+    ok, blog = L.build_hook()
+    wd = os.path.join(L.CACHE, 'tmp', f'c17_{os.getpid()}')
+    os.makedirs(wd, exist_ok=True)
+    pk, meta = G.conforming_stream(R, nlinks=8, max_hbf=8)
+    base = G.encode(pk)
+    big = os.path.join(wd, 'big.raw'); open(big, 'wb').write(base * (12 if tier == 'quick' else 150))
+    bad, _ = erroneous_stream(R, nlinks=6, nfaults=40, max_hbf=5)
+    errf = os.path.join(wd, 'err.raw'); open(errf, 'wb').write(G.encode(bad) * 20)
+    fat = os.path.join(wd, 'fatal.raw')
+    fb = bytearray(base * 30); walk = chain_walk(bytes(fb)); o = walk[len(walk) * 2 // 3][0]; fb[o + 8:o + 10] = b'\x05\x00'
+    open(fat, 'wb').write(fb)
+    bins = [L.BIN] + ([L.HOOKBIN] if ok else [])
+    BOUND = 20.0
+
+    def finish(p, t0, what, detail):
+        try:
+            out, err = p.communicate(timeout=BOUND)
+        except subprocess.TimeoutExpired:
+            p.kill(); p.communicate()
+            ck.violation('hang', dict(detail, what=what + ': the process did not end within %.0f s (deadlock / hang)' % BOUND)); return None
+        dt = time.time() - t0
+        err = L.ANSI.sub('', err.decode('utf-8', 'replace'))
+        if 'panicked' in err or p.returncode not in (0, 1, 7) + tuple(detail.get('also_ok', ())):
+            ck.violation('panic', dict(detail, what=what + ': panic / abnormal exit status', exit=p.returncode, stderr=err[-500:]))
+        ck.count('stop_' + what.split(':')[0])
+        return out, err, dt
+
+    nrep = 8 if tier == 'quick' else 120
+    modes = [['check', 'all', 'its-stave', '-m'], ['check', 'all', 'its'], ['view', 'rdh'], ['view', 'its-readout-frames'], ['-f', '1', '-o', os.path.join(wd, 'out.raw')]]
+    # ---- signals at random instants
+    for rep in range(nrep):
+        b = bins[rep % len(bins)]; args = modes[rep % len(modes)]
+        sig = signal.SIGINT if rep % 2 else signal.SIGTERM
+        env = dict(os.environ, FASTPASTA_VERIF_SCHED=str(rep + 1)) if b == L.HOOKBIN else None
+        outp = os.path.join(wd, 'out.raw')
+        if os.path.exists(outp): os.remove(outp)
+        t0 = time.time()
+        p = subprocess.Popen([b, big] + args + ['-E', '7'], stdout=subprocess.DEVNULL if args[0] != '-f' else subprocess.PIPE, stderr=subprocess.PIPE, env=env)
+        time.sleep(R.choice([0, 0.001, 0.005, 0.02, 0.05, 0.1, 0.3]) * R.random())
+        p.send_signal(sig)
+        ck.case(('signal', rep))
+        res = finish(p, t0, 'signal: ' + ('SIGINT' if rep % 2 else 'SIGTERM'), dict(args=args, binary='hook' if b == L.HOOKBIN else 'release', input='conforming stream repeated', also_ok=(-int(sig),)))
+        if res and args[0] == '-f' and os.path.exists(outp):
+            data = open(outp, 'rb').read()
+            n = sum(64 + len(pl) for o, h, pl in chain_walk(data))
+            if n != len(data) or any(h[12] != 1 for o, h, pl in chain_walk(data)):
+                ck.violation('partial_output', {'what': 'the filtered output file written up to the stop does not consist of whole matching packets', 'size': len(data), 'framed': n})
+    # ---- stdout closed after k bytes
+    for rep in range(nrep):
+        b = bins[rep % len(bins)]
+        args = [['view', 'rdh'], ['view', 'its-readout-frames-data'], ['-f', '1'], ['-f', '2', '-o', 'stdout'], ['check', 'sanity', '-S', 'stdout', '-D', 'json'], ['check', 'all', 'its']][rep % 6]
+        k = R.choice([0, 0, 1, 100, 5000, 70000, 1000000])
+        env = dict(os.environ, FASTPASTA_VERIF_SCHED=str(rep + 1)) if b == L.HOOKBIN else None
+        t0 = time.time()
+        p = subprocess.Popen([b, big] + args, stdout=subprocess.PIPE, stderr=subprocess.PIPE, env=env)
+        try:
+            if k: p.stdout.read(k)
+            p.stdout.close()
+        except Exception: pass
+        ck.case(('closed_stdout', rep))
+        try:
+            err = p.stderr.read(); rc = p.wait(timeout=BOUND)
+        except subprocess.TimeoutExpired:
+            p.kill(); ck.violation('hang', {'what': 'stdout closed: the process did not end', 'args': args, 'after_bytes': k}); continue
+        errs = L.ANSI.sub('', err.decode('utf-8', 'replace'))
+        ck.count('stop_closed_stdout')
+        if 'panicked' in errs or rc not in (0, 1):
+            ck.violation('panic', {'what': 'stdout closed after %d bytes: panic / abnormal exit' % k, 'args': args, 'exit': rc, 'stderr': errs[-500:]})
+    # ---- error cap reached / fatal error in mid-stream (full queues behind it)
+    for rep in range(nrep):
+        b = bins[rep % len(bins)]
+        env = dict(os.environ, FASTPASTA_VERIF_SCHED=str(rep + 1)) if b == L.HOOKBIN else None
+        if rep % 2:
+            args, f, what = ['check', 'all', 'its', '-e', str(R.choice([1, 2, 5, 50]))], errf, 'cap'
+        else:
+            args, f, what = [R.choice(['check', 'view']), ], fat, 'fatal'
+            args = ['check', 'all', 'its-stave'] if args[0] == 'check' else ['view', 'rdh']
+        t0 = time.time()
+        p = subprocess.Popen([b, f] + args, stdout=subprocess.DEVNULL, stderr=subprocess.PIPE, env=env)
+        ck.case((what, rep))
+        finish(p, t0, what + ': early stop', dict(args=args))
+    shutil.rmtree(wd, ignore_errors=True)
+    ck.sample(dict(stops=['SIGINT/SIGTERM at random instants', 'stdout closed after k bytes', 'error cap', 'fatal framing error in mid-stream'], binaries=len(bins)))
+
+
 CHECKS = {
+    'C17': dict(modules=['FastPasta.Props.C17'], run=run_c17, needs_harness=False,
+                theorems=['FastPasta.C17.no_deadlock', 'FastPasta.C17.step_decreases', 'FastPasta.C17.env_measure', 'FastPasta.C17.terminates_within',
+                          'FastPasta.C17.orderly_stop', 'FastPasta.C17.step_inv', 'FastPasta.C17.env_inv', 'FastPasta.C17.exec_inv', 'FastPasta.C17.writer_whole_packets']),
+    'C04': dict(modules=['FastPasta.Props.C04'], run=run_c04, needs_harness=False, corr='panic_model',
+                theorems=['FastPasta.C04.no_panic_nonstave', 'FastPasta.C04.no_panic_stave_valid_layers', 'FastPasta.C04.checkWord_safe', 'FastPasta.C04.checkWords_safe',
+                          'FastPasta.C04.payloadChecks_safe', 'FastPasta.C04.linkRun_safe', 'FastPasta.C04.processFrame_err', 'FastPasta.C04.preData_err',
+                          'FastPasta.C04.scan_steps_bound', 'FastPasta.C04.scanLoop_bound', 'FastPasta.C04.loadCdp_consumes', 'FastPasta.C04.filterLoop_consumes',
+                          'FastPasta.C04.alpide_zero_is_data_long', 'FastPasta.C04.alpide_ape_range']),
     'C19': dict(modules=['FastPasta.Props.C19'], run=run_c19, needs_harness=False, corr='view_model',
                 theorems=['FastPasta.C19.rdh_view_rows', 'FastPasta.C19.rdh_view_rows_explicit', 'FastPasta.C19.word_rows_spec', 'FastPasta.C19.word_rows_complete',
                           'FastPasta.C19.byte_fatal_iff', 'FastPasta.C19.byte_error_iff', 'FastPasta.C19.lane_status_fatal_iff', 'FastPasta.C19.viewKind_eq_kindOfId',
